@@ -1604,6 +1604,90 @@ def gen_parse():
     first, second = fold_lean(per_char[:2]), fold_lean(per_char[2:])
     if first != second:
         raise TranslateError("new_inner: the escape loop and the closure treat a character differently")
+    # the escape state machine of the grapheme loop: the statements in front of the per-character matches, and the one behind the loop
+    lm = re.search(r"for mut c in chars::graphemes\(needle\) \{(.*?)match case \{", ni, re.S)
+    if not lm:
+        raise TranslateError("new_inner: the grapheme loop with escapes was not found")
+    loop_end = per_char[1][0]
+    k = ni.index("{", ni.index("match normalization", loop_end))
+    depth, k = 1, k + 1
+    while depth:
+        depth += {"{": 1, "}": -1}.get(ni[k], 0)
+        k += 1
+    tail = re.match(r"\s*needle_\.push\(c\);\s*\}\s*if saw_backslash \{\s*needle_\.push\('(\\\\|.)'\);\s*\}", ni[k:], re.S)
+    if not tail:
+        raise TranslateError("new_inner: after the per-character matches the loop must push c and end; then `if saw_backslash { needle_.push(..) }`")
+
+    def stmts_of(text):
+        out_, i = [], 0
+        text = text.strip()
+        while i < len(text):
+            if text[i].isspace():
+                i += 1
+                continue
+            mm2 = re.compile(r"if ([^{]+?) \{").match(text, i)
+            if mm2:
+                def block(j):
+                    depth2, k2 = 1, j
+                    while depth2:
+                        depth2 += {"{": 1, "}": -1}.get(text[k2], 0)
+                        k2 += 1
+                    return text[j:k2 - 1], k2
+                then_, j = block(mm2.end())
+                else_ = None
+                me = re.compile(r"\s*else \{").match(text, j)
+                if me:
+                    else_, j = block(me.end())
+                out_.append(("if", mm2.group(1).strip(), stmts_of(then_), stmts_of(else_) if else_ is not None else []))
+                i = j
+                continue
+            mm2 = re.compile(r"needle_\.push\('(\\\\|\\'|.)'\);").match(text, i)
+            if mm2:
+                out_.append(("push", byte_lit("b'" + mm2.group(1) + "'")))
+                i = mm2.end()
+                continue
+            mm2 = re.compile(r"saw_backslash = ([^;]+);").match(text, i)
+            if mm2:
+                out_.append(("set", mm2.group(1).strip()))
+                i = mm2.end()
+                continue
+            mm2 = re.compile(r"continue;").match(text, i)
+            if mm2:
+                out_.append(("continue",))
+                i = mm2.end()
+                continue
+            raise TranslateError(f"new_inner escape loop: statement at {text[i:i+50]!r}")
+        return out_
+
+    def bexpr(e, saw):
+        e = e.strip()
+        if e == "saw_backslash":
+            return saw
+        if e in ("true", "false"):
+            return e
+        mm2 = re.fullmatch(r"c == '(\\\\|\\'|.)'", e)
+        if mm2:
+            return f"(c == {byte_lit(chr(98) + chr(39) + mm2.group(1) + chr(39))})"
+        raise TranslateError(f"new_inner escape loop: expression {e!r}")
+
+    def gen(stmts, out_e, saw):
+        if not stmts:
+            return f"({out_e}, {saw}, false)"
+        st0, rest = stmts[0], stmts[1:]
+        if st0[0] == "push":
+            return gen(rest, f"({st0[1]} :: {out_e})", saw)
+        if st0[0] == "set":
+            return gen(rest, out_e, bexpr(st0[1], saw))
+        if st0[0] == "continue":
+            return f"({out_e}, {saw}, true)"
+        return f"(if {bexpr(st0[1], saw)} then {gen(st0[2] + rest, out_e, saw)} else {gen(st0[3] + rest, out_e, saw)})"
+    prelude = gen(stmts_of(lm.group(1)), "out", "saw")
+    out += ["/-- the escape state machine of the grapheme loop of `new_inner`: what happens with a character in front of the per-character matches —",
+            "    (characters pushed so far, newest first; `saw_backslash` afterwards; did the iteration `continue`?); when it did not, the character is folded",
+            "    (`fold_char`) and pushed -/",
+            f"def esc_prelude (saw : Bool) (c : Nat) (out : List Nat) : List Nat × Bool × Bool := {prelude}", "",
+            "/-- behind the loop: `if saw_backslash { needle_.push(<this>) }` -/",
+            f"def esc_pending_push : Nat := {byte_lit(chr(98) + chr(39) + tail.group(1) + chr(39))}", ""]
     # the byte path's whole-string case handling
     byte_case = [(pos, txt) for pos, which, txt in blocks_src if which == "case" and "chars::" not in txt]
     if len(byte_case) != 1:
